@@ -162,6 +162,7 @@ structure RLeaf where
 inductive SOp where
   | bind (k : String) (obj : Nat) (key : String)
   | unbind (k : String)
+  | alloc (k : String) (vals : List Val)      -- the operation made a tensor of its own (dtype / shape conversion, memmap copy …) to bind
   deriving Repr
 
 structure Payload where
@@ -180,6 +181,7 @@ def RLeaf.freshSpec (r : RLeaf) : String × Spec := (r.key, .fresh r.vals)
 def SOp.toStep (td : Nat) : SOp → Step
   | .bind k o k2 => .rebind td k o k2
   | .unbind k => .unbind td k
+  | .alloc k vals => .alloc k vals
 
 /-- the memory behaviour of an operation of class `c` on tensordict `td` -/
 def stepsOf (c : OpClass) (td : Nat) (p : Payload) : List Step :=
